@@ -288,6 +288,7 @@ func (c *Ctx) finish(verifDir string, seed int, wall float64, explanation string
 		"trusted_base":        trusted,
 		"notes":               c.Notes,
 		"inlined_helpers":     append([]string{}, c.w.Inlined...),
+		"renamed_functions":   append([]string{}, c.w.Renamed...),
 	}
 	ev := evidence{PropertyID: c.Prop, Tier: c.Tier, Seed: seed, Level: "other", Coverage: cov,
 		Assumptions: append([]string{}, c.Assumes...), WallS: wall, Violations: nViol + nUnd}
@@ -299,6 +300,9 @@ func (c *Ctx) finish(verifDir string, seed int, wall float64, explanation string
 	}
 	if len(c.w.Inlined) > 0 {
 		fmt.Printf("%s note: %d helper(s) that are not part of the pinned tree and have a single call site were analysed inlined into their callers: %s\n", c.Prop, len(c.w.Inlined), strings.Join(c.w.Inlined, "; "))
+	}
+	if len(c.w.Renamed) > 0 {
+		fmt.Printf("%s note: %d function(s)/field(s) of the pinned tree were recognised under a new name (functions: same receiver and signature; fields: same struct layout and type) and analysed under the old one: %s\n", c.Prop, len(c.w.Renamed), strings.Join(c.w.Renamed, "; "))
 	}
 	fmt.Printf("%s %s: %d obligations (%d discharged, %d assumed, %d known findings, %d violated, %d undecided) over %d functions, %d rules, %.1fs\n",
 		c.Prop, c.Tier, total, nOK, nAss, nKnown, nViol, nUnd, len(fns), len(c.Instances), wall)
